@@ -108,6 +108,9 @@ func runAcceptSeq(seq []string) (trace string, wall time.Duration, err error) {
 		case 'S':
 			// Accept fails because Shutdown closed the listener
 			l.Push(rec.AcceptStep{Temporary: i%2 == 0, Permanent: i%2 == 1, Before: callShutdown})
+			// ... and, for the temporary flavour, keeps failing that way: Serve must stop because of Shutdown, not because the
+			// listener eventually reports something permanent
+			l.TempWhenClosed = i%2 == 0
 			terminal = true
 		}
 		if terminal {
@@ -125,7 +128,7 @@ func runAcceptSeq(seq []string) (trace string, wall time.Duration, err error) {
 		select {
 		case serveErr = <-ret:
 			returned = true
-		case <-time.After(15 * time.Second):
+		case <-time.After(4 * time.Second):
 			return "", 0, fmt.Errorf("Serve did not return")
 		}
 	} else {
